@@ -55,6 +55,28 @@ def B(qr, tr, qw=45, tw=780, **kw):
     return d
 
 
+def plant_bad_sample(S, r, tier):
+    """F5: in the f_bad sub-profile plant exactly one invalid value on one arrival / service / batch stream."""
+    if not S.pop("_f_bad", False):
+        return S
+    cands = []
+    for kind, key in (("arr", "arr"), ("srv", "srv"), ("bat", "batch")):
+        if S.get(key):
+            for c in S[key]:
+                for i, t in enumerate(S[key][c]):
+                    if t is not None:
+                        cands.append((kind, key, c, i))
+    kind, key, c, i = r.choice(cands)
+    if kind == "bat":
+        v = r.choice([-1, 2.5, None, "x", float("nan")])
+    else:
+        v = r.choice([-1.0, -0.25, float("nan"), None, "x"])
+    idx = r.randint(0, 4)
+    S[key][c][i]["bad_at"] = {"i": idx, "v": v}
+    S["f5"] = {"key": [kind, i + 1, c], "i": idx, "v": v}
+    return S
+
+
 PROFILES = {}
 LEVEL_TEXT = {
     "*": "seeded exploration: the real engine is run on tens of thousands of generated networks, tapes and tie-break "
@@ -77,6 +99,7 @@ def _load():
     from .oracles.c03 import C03
     from .oracles.c08 import C08
     from .oracles.c09 import C09
+    from .oracles.c10 import C10
 
     wide = profile()
     faulty = profile(f_zero=0.8, f_infarr=0.3, f_batch0=0.8, qcap=0.7, sched=0.35, renege=0.4, batch=0.4)
@@ -118,6 +141,11 @@ def _load():
     register(Profile("C09", [C09], [(2, rout), (1, rout_b)],
                      "distinct history digest; non-trivial = >=1 routing decision checked (per-router-kind and unequal-queue JSQ/LB decision counters reported)",
                      B(40000, 400000)))
+    samp = profile(preempt=0.0, sched_pre_opts=[False], tdep=0.5, batch=0.5, exact=0.15, n=[1, 2, 2, 3], slot=0.1, ps=0.05)
+    register(Profile("C10", [C10], [(3, samp), (1, dict(samp, f_bad=1.0))],
+                     "distinct history digest; non-trivial = >=3 arrivals on one stream and >=1 completed service audited against its sample "
+                     "(F5 sub-profile: one invalid sample planted per run; counters F5:planted/served/raised reported)",
+                     B(40000, 400000), post=plant_bad_sample))
     cap = profile(qcap=0.9, qcap_vals=[INF, 0, 0, 1, 2, 3], syscap=0.4, batch=0.5, baulk=0.4, renege=0.3, jockey=0.5, n=[1, 2, 2, 3], **NOREROUTE)
     register(Profile("C06", [C06], [(1, cap)],
                      "distinct history digest; non-trivial = >=1 rejection and >=1 admission into a node holding capacity-1",
